@@ -10,7 +10,7 @@ import os
 
 import fibertree.core.metrics as MM
 import fibertree.model.compute as MC
-from fibertree import Fiber, Payload, Tensor
+from fibertree import Fiber, Payload, Tensor, CoordPayload
 from fibertree.core.metrics import Metrics
 from fibertree.model.compute import Compute
 
@@ -323,6 +323,10 @@ class KernelSim(WorldBase):
             for model in ("two-finger", "skip-ahead", "leader-follower"):
                 for m in masks:
                     evs.append(["pairs", {"pairs": pairs, "outer": outer, "model": model, "mask": m}])
+            # no outer rank at all: the intersected rank is the outermost one, every fiber has the same (empty) upper point;
+            # fibers are then only told apart by handing them over one at a time
+            for model in ("two-finger", "skip-ahead", "leader-follower"):
+                evs.append(["pairs", {"pairs": pairs, "outer": 0, "model": model, "mask": (1 << 48) - 1}])
             if g.random() < 0.6:
                 # the same fibers walked tile-wise: only coordinates below hi are wanted
                 hi = g.randint(1, S)
@@ -1776,7 +1780,10 @@ class KernelSim(WorldBase):
                 started[0] = True
                 if (mask >> (j % 48)) & 1:
                     self._isect_drain(isect)
-            if outer == 1:
+            if outer == 0:
+                for j in range(n):
+                    inner(j)
+            elif outer == 1:
                 J = Fiber(list(range(n)), [1] * n)
                 J.getRankAttrs().setId("J")
                 for j, _ in J:
@@ -1848,6 +1855,49 @@ class KernelSim(WorldBase):
             self.V("C19", "C19.swaps", "swaps", f"numSwaps raised {type(e).__name__}: {str(e)[:80]}")
             return {}
         mult = 1 if depth == 0 else 2
+        # the same tensor asked again, untouched; then again after one stored coordinate was moved in place
+        try:
+            T = build(a["vals"])
+            before = ob.snapshot(T)
+            first = Compute.numSwaps(T, depth, radix, lat)
+            if ob.snapshot(T) != before:
+                self.V("C19", "C19.swaps", "swaps",
+                       f"numSwaps(radix={a['radix']}, latency={lat}) changed the tensor it was asked about (lists {lists})")
+            again = Compute.numSwaps(T, depth, radix, lat)
+            if first != got or again != got:
+                self.V("C19", "C19.swaps", "swaps",
+                       f"numSwaps on one tensor gives {first}, then {again}; on a fresh tensor with the same content {got} "
+                       f"(lists {lists}, radix {a['radix']}, latency {lat})")
+            moved = None
+            for li, cs in enumerate(lists):
+                free = [c for c in range(8) if c not in cs]
+                for ci, c in enumerate(cs):
+                    lo = cs[ci - 1] if ci else -1
+                    hi_ = cs[ci + 1] if ci + 1 < len(cs) else 8
+                    cand = [x for x in free if lo < x < hi_]
+                    if cand:
+                        moved = (li, ci, cand[0])
+                        break
+                if moved:
+                    break
+            if moved and depth == 0:
+                li, ci, nc = moved
+                leaf = T.getRoot().getPayload(li)
+                leaf[ci] = CoordPayload(nc, leaf.payloads[ci])
+                lists2 = [list(cs) for cs in lists]
+                lists2[li][ci] = nc
+                after = Compute.numSwaps(T, depth, radix, lat)
+                fresh = self._swaps_on_fresh(lists2, depth, radix, lat, a["vals"])
+                if after != fresh:
+                    self.V("C19", "C19.swaps", "swaps",
+                           f"after coordinate {lists[li][ci]} of list {li} was moved to {nc} in place numSwaps gives {after}; "
+                           f"a fresh tensor with lists {lists2} gives {fresh} (radix {a['radix']}, latency {lat})")
+                self.probe("swaps_after_in_place_change")
+        except Violation:
+            raise
+        except Exception as e:
+            self.V("C19", "C19.swaps", "swaps", f"repeated numSwaps raised {type(e).__name__}: {str(e)[:80]}")
+            return {}
         if got != got2 or got != got3:
             self.V("C19", "C19.swaps", "swaps",
                    f"numSwaps depends on payload values: {got} vs {got2} (other values) vs {got3} (some payloads zero) "
@@ -1878,6 +1928,14 @@ class KernelSim(WorldBase):
                        f"(one comparison per merged element .. one per element and list of its group) for lists {lists}")
         self.probe("swaps_checked")
         return {"n": got}
+
+    def _swaps_on_fresh(self, lists, depth, radix, lat, vals):
+        t = Tensor(rank_ids=["M", "K"], shape=[len(lists), 8])
+        for m, cs in enumerate(lists):
+            for c in cs:
+                r = t.getPayloadRef(m, c)
+                r <<= vals + c
+        return Compute.numSwaps(t, depth, radix, lat)
 
     def finish(self):
         # leave no collection running (the child exits anyway)
